@@ -60,6 +60,11 @@ def path_of(e):
     if cur[0] in ('arg', 'var', 'upvar', 'carg'):
         root = cur[2] if cur[0] != 'upvar' else 'upvar%d' % cur[1]
         return root + ''.join('.' + p for p in reversed(parts)), kinds, cur
+    if cur[0] == 'call' and (cur[3].endswith('Iterator::next') or cur[1].endswith('Iterator::next')):
+        # the element of a `for` loop: same role as the parameter of a map closure
+        if parts and parts[-1] == 'Some#0':
+            parts = parts[:-1]
+        return 'elem' + ''.join('.' + p for p in reversed(parts)), kinds, ('carg', -1, 'elem', cur)
     return None, kinds, cur
 
 
@@ -279,7 +284,7 @@ def struct_rules(ctx, item):
         p1, p2, pn = item.hp(h1), item.hp(h2), item.hp(hn)
         det = 'cond %s sizes %s %s type %s' % (cond[:80], p1[0], p2[0], pn[0])
         oks = p1[0] is not None and p1[0] == p2[0] and p1[0].endswith('resolved().size') and pn[0] is not None and pn[0].endswith('path.last()') and \
-            re.match(r'^Gt\(.*resolved.*\.size, 0\)$', cond) is not None
+            re.match(r'^(Gt|Ne)\(.*resolved.*\.size, 0\)$', cond) is not None
     ctx.ob(['C02', 'C13'], 'R-TMPL', 'struct|size-check', oks, 'a transmute between [u8; size] and the struct is emitted for size > 0, with the resolved size of this very item: %s' % det, where)
     # singleton
     m = re.search(r'OPT(\d+)\[ impl ' + H + r' \{ ' + VIS + r' unsafe fn get \(  \) -> Option < & \'static mut Self > \{ unsafe \{ let (?P<pv>\w+) : \* mut Self = \* \( ' + H + r' as \* mut \* mut Self \) ; (?P=pv) \. as_mut \(  \) \} \} \} \]', s)
@@ -547,6 +552,27 @@ def fn_rules(ctx, fn):
                 flt = x
     okf = False
     det = 'filter closure not found'
+    if not flt:
+        # loop form: `for a in &function.arguments { if is_field && a.is_self() { continue; } v.push(..) }`
+        lcs = set()
+        for rid in fn.reps:
+            r_, info_ = fn.rep_info(rid)
+            for c_ in (info_ or {}).get('chain', []):
+                if c_[0] == 'filter' and c_[1] and c_[1][0] == 'loopcond':
+                    lcs.add((c_[1][2], c_[1][1]))
+        if len(lcs) == 1:
+            (fid_, pb_), = lcs
+            g_ = P.fns[fid_]
+            lb_ = [x for x in (loop_built(g_, l_) for l_ in range(len(g_.locals))) if x and x['push'] == pb_]
+            if lb_:
+                sk = loop_skip_paths(g_, lb_[0])
+                det = 'skip paths %s' % [[(show(expand(g_, c_))[:60], lab) for c_, lab in p_] for p_ in sk]
+                if len(sk) == 1 and len(sk[0]) == 2:
+                    cs = [(strip(expand(g_, c_)), lab) for c_, lab in sk[0]]
+                    isf_ = [c_ for c_, lab in cs if lab is True and is_call_(c_, 'FunctionBody::is_field')]
+                    iss_ = [c_ for c_, lab in cs if lab is True and is_call_(c_, 'Argument::is_self') and any(
+                        isinstance(y, tuple) and y[0] == 'call' and y[3].endswith('Iterator::next') for y in walk(c_))]
+                    okf = len(isf_) == 1 and len(iss_) == 1
     if flt:
         # returns true when !upvar0 ; otherwise !is_self(a)
         sw = [s_ for s_ in flt.switches()]
